@@ -220,6 +220,20 @@ class PortMachine(Machine):
             else:
                 line = self._gen_line(w, slot["plat"], slot["version"], slot["proto"])
             return dict(op="port_set_line", t=t, line=line)
+        if r < 0.27 and slot["op"]:
+            # other operands for the same operator through the items view, in any order
+            opn = slot["op"]
+            n_ = 1 if opn in ("lt", "gt") else 2 if opn == "range" else \
+                (s.randint(1, 5) if slot["plat"] == "ios" else 1)
+            vals = [self._operand(w) for _ in range(n_)]
+            if opn == "range" and s.random() < 0.5:
+                vals.sort(reverse=True)
+            if opn == "range" and s.random() < 0.15:
+                vals[1] = vals[0]
+            if opn == "lt" and vals[0] == 1 or opn == "gt" and vals[0] == MAXP:
+                vals = [2]
+            return dict(op="port_set_items", t=t, vals=vals,
+                        as_=s.choice(["list", "list", "tuple", "str"]))
         if r < 0.40:
             return dict(op="port_wb_items", t=t, perm=s.choice(["same", "same", "tuple", "copy"]))
         if r < 0.62:
@@ -569,6 +583,38 @@ class PortMachine(Machine):
         if self._observe(c) != self._observe(slot["obj"]):
             self._fail("C08.copy", "copy() differs from source")
         slot["obj"] = c
+        return "ok"
+
+    def _op_port_set_items(self, op):
+        """New operands for the current operator through the items view (not a write-back): the
+        denotation clause holds for the expression however it was given its operands - `range`
+        regardless of operand order."""
+        slot = self._slot(op["t"])
+        if slot is None or not slot["op"]:
+            return "noop"
+        p = slot["obj"]
+        vals = list(op["vals"])
+        if slot["plat"] != "ios" and slot["op"] in ("eq", "neq") and len(vals) != 1:
+            return "noop"
+        if slot["op"] in ("lt", "gt") and len(vals) != 1 or slot["op"] == "range" \
+                and len(vals) != 2:
+            return "noop"
+        if not all(isinstance(v, int) and 1 <= v <= MAXP for v in vals):
+            return "noop"
+        arg = {"list": list(vals), "tuple": tuple(vals), "str": [str(v) for v in vals]}[
+            op.get("as_", "list")]
+        pre = self._observe(p)
+        try:
+            p.items = arg
+        except (ValueError, TypeError) as ex:
+            self._fail("C08.valid-rejected", f"p.items={arg!r} on {pre[0]!r} raised "
+                                             f"{type(ex).__name__}: {ex}")
+        slot["operands"] = list(vals)
+        slot["wb"] = 0
+        self.probes["items_assigned"] += 1
+        if vals != sorted(vals):
+            self.probes["items_assigned_unsorted"] += 1
+        self._check(p, slot, f"after items={arg!r}")
         return "ok"
 
     def _op_port_xfer(self, op):
